@@ -194,12 +194,12 @@ func C01(r *h.Run) {
 		case "toy":
 			copts = append(copts, connect.WithCodec(h.ToyCodec{Poison: true}))
 			hopts = append(hopts, connect.WithCodec(h.ToyCodec{Poison: true}))
-			res = runE2E(rawKind, c.Kind, c.Via, copts, hopts, reqMsgs, resMsgs, nil, 0)
+			res = runE2E(rawKind, c.Kind, c.Via, copts, hopts, reqMsgs, resMsgs, nil, 0, nil)
 		case "json":
 			copts = append(copts, connect.WithProtoJSON())
-			res = runE2E(bytesValueKind, c.Kind, c.Via, copts, hopts, reqMsgs, resMsgs, nil, 0)
+			res = runE2E(bytesValueKind, c.Kind, c.Via, copts, hopts, reqMsgs, resMsgs, nil, 0, nil)
 		default:
-			res = runE2E(bytesValueKind, c.Kind, c.Via, copts, hopts, reqMsgs, resMsgs, nil, 0)
+			res = runE2E(bytesValueKind, c.Kind, c.Via, copts, hopts, reqMsgs, resMsgs, nil, 0, nil)
 		}
 		r.Eval(fam, fmt.Sprintf("%v|%v|%v", c, hexList(reqMsgs), hexList(resMsgs)))
 		r.Sample(fam, map[string]any{"cfg": c, "request_msgs": hexList(reqMsgs), "response_msgs": hexList(resMsgs),
